@@ -10,6 +10,7 @@ A snapshot racing a `record()` is the composition with the bucket model (C05).
 -/
 import MetricsVerif.Proofs.Debugging
 import MetricsVerif.Generated.SourceFacts
+import MetricsVerif.Props.C19Conc
 
 namespace MetricsVerif.C19
 open MetricsVerif.Debugging MetricsVerif.PromFmt
@@ -1042,6 +1043,23 @@ theorem src_snapshot_shape :
         = "clear_with(|xs| values.extend(xs.iter().map(|f| OrderedFloat::from(*f))))"
     ∧ Generated.debug_snapshot_push_guard
         = "if let Some(value) = value { snapshot.push((ck, unit, desc, value)); }" := ⟨rfl, rfl, rfl, rfl, rfl⟩
+
+/-- the mechanism behind `register_*`, per kind (`get_or_create_counter / _gauge / _histogram`): the read section
+    probes the table once (`raw_entry`), the read lock is dropped BEFORE the write lock is taken (the window of
+    `reg.goc.write`), and the write section probes AGAIN (`raw_entry`) before it goes through
+    `raw_entry_mut().…or_insert_with` — nothing in it sets an occupied slot (`insert`, `replace…`).  This is the
+    shape of `Registry.writeSection` (look up, insert only when absent) on which `conc_handle_is_registry_cell` and
+    `conc_same_key_same_cell` rest; the yield points of the concurrent stream sit where the model's PCs are. -/
+theorem src_goc_rechecks_under_write_lock :
+    Generated.debug_goc_read_section = [["raw_entry"], ["raw_entry"], ["raw_entry"]]
+    ∧ Generated.debug_goc_write_section
+        = [["raw_entry", "raw_entry_mut", "or_insert_with"], ["raw_entry", "raw_entry_mut", "or_insert_with"],
+           ["raw_entry", "raw_entry_mut", "or_insert_with"]]
+    ∧ Generated.debug_goc_points
+        = [["reg.goc.read", "read", "drop(shard_read)", "reg.goc.write", "write"],
+           ["reg.goc.read", "read", "drop(shard_read)", "reg.goc.write", "write"],
+           ["reg.goc.read", "read", "drop(shard_read)", "reg.goc.write", "write"]]
+    ∧ Generated.debug_goc_op_calls = ["op(v) op(v)", "op(v) op(v)", "op(v) op(v)"] := ⟨rfl, rfl, rfl, rfl⟩
 
 /-! ## non-vacuity -/
 
